@@ -42,6 +42,7 @@ verifies with the identifiers the caller hands in (`asResponse`).  Nothing is as
 two flags (under a sound AEAD at most one holds). -/
 structure WireMsg where
   code : Nat                    -- outer code, 0..255; unauthenticated
+  kid : Bool                    -- the OSCORE option carries a key ID (requests of the peer do, its responses do not)
   piv : Option Nat              -- Partial IV in the OSCORE option, if any
   asRequest : Bool
   asResponse : Bool
@@ -63,6 +64,9 @@ def unprotectWire (c : Ctx) (m : WireMsg) : Ctx × WOut :=
   -- anything else is looked at.  (The other new test there, "request identifiers given iff response code", is
   -- about the caller's argument; callers hand identifiers in exactly for response codes.)
   if !isResp && !codeStyleOk m.code then (c, .codeRefused) else
+  -- 1276-1281 (fix 603f085): a message under a request code without a key ID (a recorded response of the peer
+  -- delivered as a request): `ProtectionInvalid`, before the sequence number and the window are looked at
+  if !isResp && !m.kid then (c, .plain .protectionInvalid) else
   match m.piv with
   | none =>
     -- 1277-1283: no partial IV
@@ -113,10 +117,10 @@ def runWire (c : Ctx) : List WireMsg → Ctx × List WOut
 
 /-- a request of the peer (sequence number, authentic?, inner Echo) under an outer code -/
 def WireMsg.ofArrival (a : Arrival) (code : Nat) : WireMsg :=
-  { code, piv := some a.seq, asRequest := a.authentic, asResponse := false, echo := a.echo }
+  { code, kid := true, piv := some a.seq, asRequest := a.authentic, asResponse := false, echo := a.echo }
 
 /-- a response of the peer to a request of this process under an outer code -/
 def WireMsg.ofResp (r : RespArrival) (code : Nat) : WireMsg :=
-  { code, piv := r.seq, asRequest := false, asResponse := r.authentic, echo := none }
+  { code, kid := false, piv := r.seq, asRequest := false, asResponse := r.authentic, echo := none }
 
 end Aiocoap.Oscore
